@@ -164,6 +164,11 @@ func (r *DataReader) ResolverLocation(q []byte, ip string) (*Location, error) {
 // If we find a match, Location will contain the matching LocationID and ECS
 // option will have SourceScope set.
 func (r *DataReader) EcsLocation(q []byte, ecs *dns.EDNS0_SUBNET) (*Location, error) {
+	if ecs.Family != 1 && ecs.Family != 2 {
+		// no address to map (family 0 carries none): the resolver decides
+		ecs.SourceScope = 0
+		return nil, nil
+	}
 	bits := 8 * net.IPv4len
 	if ecs.Family == 2 {
 		bits = 8 * net.IPv6len
